@@ -8,13 +8,14 @@ TB = ("Lean 4.33 kernel + axioms propext/Classical.choice/Quot.sound only (audit
 
 CHECKS = {
  "C11": dict(
-   technique="Lean 4 refinement + invariant proofs (index-range map), differential correspondence under ASan/UBSan",
-   text="Proof: for the 1-D core (VectorWithOffset/Array<1>/NumericVectorWithOffset) every operation is proved in Lean to refine the index-range-map "
-        "specification and to stay inside the allocation, and `C11_history_safe` lifts memory safety + invariant to every operation history by induction. "
-        "The model is tied to the code by executing all histories up to length 3 (thorough: 4) over a 21-operation alphabet plus seeded random histories on the real classes "
-        "under ASan/UBSan and on the Lean driver, comparing the full observable state after every step. N-dimensional arrays, views and row-major iteration are "
-        "covered by the harness's reference-map oracle (exploration), not by a theorem.",
-   note=TB + "element type int; allocator/shared_ptr lifetime/iterator invalidation only seen by ASan; N-dim arrays by oracle only.",
+   technique="Lean 4 refinement + invariant proofs (index-range map, every storage and arithmetic operation), differential correspondence under ASan/UBSan; nested reference-map oracle for N-dimensional arrays, views and moves",
+   text="Proof: for the 1-D core (VectorWithOffset/Array<1>/NumericVectorWithOffset, a pointer-offset model) every operation of the alphabet — resize, grow, reserve, assign, set_offset, fill, growing and range-checked "
+        "+= -= *= /=, scalar and binary operators, xapyb/sapyb — is proved to refine the index-range-map specification and to stay inside the allocation, and `C11_history_safe` lifts memory safety + invariant to every "
+        "operation history by induction. Tie: all sequences of length 3 over the 41-operation alphabet (thorough: length 4 over a core sub-alphabet) plus seeded random histories are executed on the real classes under "
+        "ASan/UBSan and on the Lean driver, comparing the full observable state after every step. N-dimensional arrays (2-4 D), block-owning and viewing arrays, all constructors, move construction/assignment, swap, "
+        "get_index_range and array_index_functions are covered by the harness's nested reference-map and aliasing oracle after every step (exploration), not by a theorem. Eight defects found this way were repaired in /repo; "
+        "one (a += empty grows the range towards index 0) is a listed known finding with a Lean negative witness.",
+   note=TB + "element type int, values bounded by 30000 (overflow and division by zero are skipped on both sides); allocator/shared_ptr lifetime/iterator invalidation only seen by ASan; views are not in the Lean model.",
    design="DESIGN.md §4 C11"),
 }
 
